@@ -264,7 +264,7 @@ theorem phaseCase_noUp (c : Cfg) (s : St) (h6 : s.phase ≠ 6) :
   · rw [pc11 c s h]; split
     · exact none_ _ (deliver_trace c s)
     · exact via _ (none_ _ (deliver_trace c s))
-  · rw [pc12 c s h]; exact via _ (one _ (.spass s.scursor (runSend c.send s.toFState).2) (by simp [sendPass, emit, liftF]) rfl)
+  · rw [pc12 c s h]; exact via _ (one _ (.spass s.scursor (runSend c.send s.toFState).2) (by simp [sendPassE, sendPass, emit, liftF]) rfl)
   · rw [pc13 c s h]; split
     · split
       · exact none_ _ (afterPEd_true_frame c s).1
